@@ -666,18 +666,16 @@ Proof.
   apply andb_true_iff in E as [_ E]. exact E.
 Qed.
 
-Lemma ep_single_meets_oracle rt prior epx m r d :
+Lemma ep_single_meets_oracle_c rt prior epx m r d :
   static_cfg epx = None ->
-  match d with Some dd => wfj (JObj dd) = true | None => True end ->
-  is_infix (r_body r) ("invalid status code" ++ nl) = false ->
+  (forall dd, d = Some dd -> ok_status (r_code r) = true -> wfj (JObj dd) = true) ->
+  (m = MDefault -> ok_status (r_code r) = false ->
+   is_infix (r_body r) ("invalid status code" ++ nl) = false) ->
   spec_endpoint_b rt epx (m, r, d) []
     (client_endpoint rt prior epx (m, r, d) [])
     (raw_of (client_endpoint rt prior epx (m, r, d) [])) = true.
 Proof.
-  intros Hst Hwf Hinf.
-  assert (Hinf' : is_infix (r_body r) "invalid status code" = false).
-  { destruct (is_infix (r_body r) "invalid status code") eqn:E; [|reflexivity].
-    rewrite (is_infix_app _ _ nl E) in Hinf. discriminate. }
+  intros Hst Hwf Hinf0.
   unfold spec_endpoint_b, client_endpoint, endpoint_out, single_out. rewrite Hst.
   cbn [static_stage static_keys static_on_failure forallb existsb b_failed].
   destruct (ok_status (r_code r)) eqn:Hok.
@@ -686,7 +684,7 @@ Proof.
       unfold spec_single_b. rewrite Hok.
       destruct dd as [|kv dd'].
       * destruct rt as [[]| | | | |]; reflexivity.
-      * pose proof (carries_refl _ Hwf) as Hc. pose proof (obj_eqb_refl _ Hwf) as He.
+      * pose proof (carries_refl _ (Hwf _ eq_refl eq_refl)) as Hc. pose proof (obj_eqb_refl _ (Hwf _ eq_refl eq_refl)) as He.
         destruct rt as [[]| | | | |];
           cbn [client_of_router client_of impl_of List.length Nat.eqb negb andb orb p_data p_complete
                c_status c_completed c_body body_obj Z.eqb Pos.eqb str_eqb];
@@ -695,7 +693,11 @@ Proof.
       destruct rt as [[]| | | | |]; reflexivity.
   - rewrite other_status_fails by exact Hok. unfold spec_single_b. rewrite Hok.
     destruct m as [| |n].
-    + cbn [err_of_single err_text].
+    + pose proof (Hinf0 eq_refl eq_refl) as Hinf.
+      assert (Hinf' : is_infix (r_body r) "invalid status code" = false).
+      { destruct (is_infix (r_body r) "invalid status code") eqn:E; [|reflexivity].
+        rewrite (is_infix_app _ _ nl E) in Hinf. discriminate. }
+      cbn [err_of_single err_text].
       destruct rt as [[]| | | | |];
         cbn [client_of_router client_of impl_of c_status c_completed c_body raw_of body_obj negb orb andb];
         rewrite ?no_leak_empty, ?(no_leak_not_infix r _ Hinf), ?(no_leak_not_infix r _ Hinf'); reflexivity.
@@ -710,6 +712,19 @@ Proof.
         rewrite details_ok_model; reflexivity.
 Qed.
 
+Lemma ep_single_meets_oracle rt prior epx m r d :
+  static_cfg epx = None ->
+  match d with Some dd => wfj (JObj dd) = true | None => True end ->
+  is_infix (r_body r) ("invalid status code" ++ nl) = false ->
+  spec_endpoint_b rt epx (m, r, d) []
+    (client_endpoint rt prior epx (m, r, d) [])
+    (raw_of (client_endpoint rt prior epx (m, r, d) [])) = true.
+Proof.
+  intros Hst Hwf Hinf. apply ep_single_meets_oracle_c; auto.
+  intros dd -> _. exact Hwf.
+Qed.
+
+
 (* a declared fallback (static data that applies to failed requests) replaces the 500 *)
 Lemma static_fallback_refutes_500 :
   exists epx x r,
@@ -719,4 +734,549 @@ Proof.
   exists [(ns_proxy, JObj [("static", JObj [("strategy", JStr "errored"); ("data", JObj [("fallback", JBool true)])])])],
          [], {| r_code := 503; r_body := "down"; r_enc := "text/plain" |}.
   vm_compute. repeat split.
+Qed.
+
+(* ======================================================================================
+   The endpoint model meets the endpoint oracle for EVERY endpoint shape (n backends,
+   flatmap / static stages, every router).
+   ====================================================================================== *)
+Definition texts_of (outs : list pout) : list string :=
+  flat_map (fun o : pout => match snd o with ENone => [] | e => [err_text e] end) outs.
+
+Definition base_resp (o0 : pout) (orest : list pout) : option presp :=
+  match orest with [] => fst o0 | _ => fst (merge_outs (o0 :: orest)) end.
+
+Definition base_err (o0 : pout) (orest : list pout) : option (Z * string) :=
+  match orest with
+  | [] => err_of_single (snd o0)
+  | _ => if anyerr_of (o0 :: orest) then Some (500%Z, join_nl (texts_of (o0 :: orest))) else None
+  end.
+
+Definition is_some {A} (x : option A) : bool := match x with Some _ => true | None => false end.
+
+Definition final_resp (st : option (string * obj)) (resp : option presp) (err : option (Z * string)) : option presp :=
+  match st with
+  | Some (name, data) =>
+      if static_match name resp (match err with Some _ => true | None => false end) then
+        let p := match resp with
+                 | Some p => p
+                 | None => {| p_data := []; p_complete := false; p_status := 0 |}
+                 end in
+        Some {| p_data := overlay data (p_data p); p_complete := p_complete p; p_status := p_status p |}
+      else resp
+  | None => resp
+  end.
+
+Lemma static_stage_final st resp err :
+  static_stage st (EOut resp err) = EOut (final_resp st resp err) err.
+Proof.
+  destruct st as [[n data]|]; [|reflexivity]. cbn [static_stage final_resp].
+  destruct (static_match n resp _); reflexivity.
+Qed.
+
+Lemma snd_merge_outs outs : snd (merge_outs outs) = anyerr_of outs.
+Proof. rewrite merge_outs_eq. destruct (payloads_of outs); reflexivity. Qed.
+
+Lemma outs_out_shape epx (o0 : pout) (orest : list pout) :
+  outs_out epx o0 orest =
+  EOut (final_resp (static_cfg epx) (base_resp o0 orest) (base_err o0 orest)) (base_err o0 orest).
+Proof.
+  unfold outs_out. rewrite <- static_stage_final. f_equal.
+  destruct orest as [|o1 orest]; [reflexivity|].
+  unfold base_resp, base_err, merged_out.
+  pose proof (merge_outs_none (o0 :: o1 :: orest)) as Hn.
+  pose proof (snd_merge_outs (o0 :: o1 :: orest)) as Hs.
+  destruct (merge_outs (o0 :: o1 :: orest)) as [resp anyerr]. cbn [fst snd] in *. subst anyerr.
+  fold (texts_of (o0 :: o1 :: orest)).
+  unfold flat_stage. destruct (flatmap_active epx); [|reflexivity].
+  destruct resp as [p|].
+  - destruct (anyerr_of (o0 :: o1 :: orest)); reflexivity.
+  - rewrite Hn by (discriminate || reflexivity). reflexivity.
+Qed.
+
+Lemma client_shape rt prior epx b0 rest :
+  client_endpoint rt prior epx b0 rest =
+  client_of_router rt prior
+    (final_resp (static_cfg epx) (base_resp (outcome b0) (map outcome rest)) (base_err (outcome b0) (map outcome rest)))
+    (base_err (outcome b0) (map outcome rest)).
+Proof. unfold client_endpoint. rewrite endpoint_out_outs, outs_out_shape. reflexivity. Qed.
+
+(* ---- association-list facts ---- *)
+Lemma lookup_overlay data : forall (base : obj) k,
+  ~ In k (keys data) -> lookup k (overlay data base) = lookup k base.
+Proof.
+  unfold overlay. induction data as [|[k0 v0] data IH]; intros base k Hk; cbn; [reflexivity|].
+  rewrite IH by (intros H; apply Hk; right; exact H).
+  apply lookup_set_neq. intros ->. apply Hk. left. reflexivity.
+Qed.
+
+Lemma nodup_lookup {V} (m : list (string * V)) : forall k v,
+  nodup_keys m = true -> In (k, v) m -> lookup k m = Some v.
+Proof.
+  induction m as [|[k0 v0] m IH]; intros k v Hn Hin; [destruct Hin|].
+  apply nodup_keys_cons in Hn as [Hnone Hn]. cbn [lookup]. destruct Hin as [E|Hin].
+  - injection E as -> ->. rewrite str_eqb_refl. reflexivity.
+  - destruct (str_eqb k k0) eqn:Ek.
+    + apply str_eqb_eq in Ek. subst k0. exfalso.
+      apply lookup_None_notin in Hnone. apply Hnone. unfold keys. apply in_map_iff. exists (k, v). auto.
+    + apply IH; assumption.
+Qed.
+
+Lemma wf_member m k v : wfj (JObj m) = true -> In (k, v) m -> lookup k m = Some v /\ json_eqb v v = true.
+Proof.
+  intros Hwf Hin. apply wfj_obj_inv in Hwf as [Hn Hf]. split.
+  - apply nodup_lookup; assumption.
+  - apply json_eqb_refl. rewrite Forall_forall in Hf. apply (Hf (k, v) Hin).
+Qed.
+
+(* ---- the response before the static stage ---- *)
+Lemma complete_eq outs :
+  forallb p_complete (payloads_of outs) && negb (anyerr_of outs) = negb (flagged outs).
+Proof.
+  induction outs as [|[resp e] outs IH]; [reflexivity|].
+  unfold payloads_of, anyerr_of, flagged in *. cbn [flat_map existsb fst]. destruct resp as [p|].
+  - cbn [app forallb orb]. rewrite <- andb_assoc, IH. rewrite negb_orb, negb_involutive. reflexivity.
+  - cbn [app orb negb]. rewrite andb_false_r. reflexivity.
+Qed.
+
+Lemma base_resp_some (o0 : pout) (orest : list pout) pb :
+  base_resp o0 orest = Some pb ->
+  p_data pb = flat_map p_data (payloads_of (o0 :: orest)) /\
+  p_complete pb = negb (flagged (o0 :: orest)).
+Proof.
+  unfold base_resp. destruct orest as [|o1 orest].
+  - destruct o0 as [resp e]. cbn [fst]. intros ->. unfold payloads_of, flagged. cbn.
+    rewrite app_nil_r, orb_false_r, negb_involutive. split; reflexivity.
+  - rewrite merge_outs_eq. pose proof (complete_eq (o0 :: o1 :: orest)) as C.
+    destruct (payloads_of (o0 :: o1 :: orest)) eqn:E; cbn [fst]; [discriminate|].
+    intros [= <-]. split; [reflexivity|exact C].
+Qed.
+
+Lemma base_resp_none (o0 : pout) (orest : list pout) :
+  base_resp o0 orest = None -> payloads_of (o0 :: orest) = [].
+Proof.
+  unfold base_resp. destruct orest as [|o1 orest].
+  - destruct o0 as [resp e]. cbn [fst]. intros ->. reflexivity.
+  - rewrite merge_outs_eq. destruct (payloads_of (o0 :: o1 :: orest)); cbn [fst]; [reflexivity|discriminate].
+Qed.
+
+Lemma payload_in_base (outs : list pout) p0 e0 k v :
+  In (Some p0, e0) outs -> In (k, v) (p_data p0) -> In (k, v) (flat_map p_data (payloads_of outs)).
+Proof.
+  intros Hin Hkv. apply in_flat_map. exists p0. split; [|exact Hkv].
+  unfold payloads_of. apply in_flat_map. exists (Some p0, e0). split; [exact Hin|]. cbn. auto.
+Qed.
+
+Lemma base_err_text (o0 : pout) (orest : list pout) st txt :
+  base_err o0 orest = Some (st, txt) -> txt = join_nl (texts_of (o0 :: orest)).
+Proof.
+  unfold base_err. destruct orest as [|o1 orest].
+  - destruct o0 as [resp e]. cbn [snd]. destruct e; cbn; intros [= _ <-]; reflexivity.
+  - destruct (anyerr_of (o0 :: o1 :: orest)); [|discriminate]. intros [= _ <-]. reflexivity.
+Qed.
+
+(* ---- the static stage, lookup form ---- *)
+Lemma final_resp_some st resp err p :
+  final_resp st resp err = Some p ->
+  (exists pb, resp = Some pb /\ p_complete p = p_complete pb /\
+              (p_data pb <> [] -> p_data p <> []) /\
+              forall k, ~ In k (static_keys st) -> lookup k (p_data p) = lookup k (p_data pb)) \/
+  (resp = None /\ p_complete p = false).
+Proof.
+  destruct st as [[n data]|]; cbn [final_resp static_keys].
+  - destruct (static_match n resp _).
+    + intros [= <-]. destruct resp as [pb|]; [left|right; split; reflexivity].
+      exists pb. cbn. repeat split; [apply overlay_nonempty|]. intros k Hk. apply lookup_overlay. exact Hk.
+    + intros ->. left. exists p. repeat split; auto.
+  - intros ->. left. exists p. repeat split; auto.
+Qed.
+
+Lemma final_resp_of_some st pb err :
+  exists p, final_resp st (Some pb) err = Some p.
+Proof.
+  destruct st as [[n data]|]; cbn [final_resp]; [|eauto].
+  destruct (static_match n (Some pb) _); eauto.
+Qed.
+
+(* ---- what the routers do without a (non-empty) response ---- *)
+Lemma client_nopayload rt prior resp err :
+  (resp = None \/ exists p, resp = Some p /\ p_data p = []) ->
+  let o := client_of_router rt prior resp err in
+  c_completed o = "false" /\
+  (raw_of o = "" \/ exists st txt, err = Some (st, txt) /\ (raw_of o = txt \/ raw_of o = (txt ++ nl)%string)).
+Proof.
+  intros [->|(p & -> & Hp)] o; subst o.
+  - destruct rt as [[]| | | | |], err as [[st txt]|]; cbn; split; try reflexivity;
+      try (left; reflexivity); right; exists st, txt; split; auto.
+  - unfold client_of_router, client_of, impl_of. rewrite Hp.
+    destruct rt as [[]| | | | |], err as [[st txt]|]; cbn; split; try reflexivity;
+      try (left; reflexivity); right; exists st, txt; split; auto.
+Qed.
+
+Lemma b_failed_flag b :
+  b_failed b = match fst (outcome b) with None => true | Some p => negb (p_complete p) end.
+Proof.
+  destruct b as [[m r] d]. cbn [b_failed outcome]. destruct (ok_status (r_code r)) eqn:Hok.
+  - destruct d as [dd|]; [rewrite used_when_ok by exact Hok|rewrite undecodable_fails by exact Hok]; reflexivity.
+  - rewrite other_status_fails by exact Hok. destruct m, d; reflexivity.
+Qed.
+
+Lemma anyfail_flagged ms : existsb b_failed ms = flagged (map outcome ms).
+Proof.
+  unfold flagged. induction ms as [|b ms IH]; [reflexivity|]. cbn [existsb map]. rewrite IH, b_failed_flag. reflexivity.
+Qed.
+
+(* ---- hypotheses of the general statement ---- *)
+Definition ep_wf (b0 : backend) (rest : list backend) : Prop :=
+  let outs := map outcome (b0 :: rest) in
+  (* the merged document is well formed: the backends' keys are pairwise distinct *)
+  wfj (JObj (flat_map p_data (payloads_of outs))) = true /\
+  (* a failing default-mode backend's body is not, by coincidence, part of the error text *)
+  forall r d, In (MDefault, r, d) (b0 :: rest) -> ok_status (r_code r) = false ->
+    is_infix (r_body r) (join_nl (texts_of outs) ++ nl) = false.
+
+Lemma details_ok_lookup n r body :
+  lookup ("error_" ++ n)%string body = Some (error_object (r_code r) (r_body r) (r_enc r)) ->
+  details_ok_b n r body = true.
+Proof.
+  intros H. pose proof (details_ok_model n r) as M. unfold details_ok_b in *. rewrite H.
+  cbn [lookup] in M. rewrite str_eqb_refl in M. exact M.
+Qed.
+
+Section Meets.
+  Variables (rt : router) (prior : list string) (epx : obj) (b0 : backend) (rest : list backend).
+  Hypothesis Hwf : ep_wf b0 rest.
+
+  Local Notation ms := (b0 :: rest).
+  Local Notation outs := (map outcome (b0 :: rest)).
+  Local Notation st := (static_cfg epx).
+  Local Notation sk := (static_keys (static_cfg epx)).
+  Local Notation br := (base_resp (outcome b0) (map outcome rest)).
+  Local Notation be := (base_err (outcome b0) (map outcome rest)).
+  Local Notation fr := (final_resp (static_cfg epx) (base_resp (outcome b0) (map outcome rest)) (base_err (outcome b0) (map outcome rest))).
+  Local Notation o := (client_endpoint rt prior epx b0 rest).
+  Local Notation base := (flat_map p_data (payloads_of (map outcome (b0 :: rest)))).
+
+  Lemma o_shape : o = client_of_router rt prior fr be.
+  Proof. apply client_shape. Qed.
+
+  Lemma outs_eq : outcome b0 :: map outcome rest = outs.
+  Proof. reflexivity. Qed.
+
+  (* a non-empty payload of any backend makes the client answer 200 with a body that holds it *)
+  Lemma payload_delivered p0 e0 :
+    In (Some p0, e0) outs -> p_data p0 <> [] ->
+    exists p, o = {| c_status := 200; c_completed := if negb (flagged outs) then "true" else "false";
+                     c_body := BJson (JObj (p_data p)) |} /\
+              forall k, ~ In k sk -> lookup k (p_data p) = lookup k base.
+  Proof.
+    intros Hin Hne.
+    destruct br as [pb|] eqn:Ebr.
+    - destruct (base_resp_some _ _ _ Ebr) as [Hd Hc]. rewrite outs_eq in Hd, Hc.
+      destruct (final_resp_of_some st pb be) as [p Ep].
+      destruct (final_resp_some _ _ _ _ Ep) as [(pb' & [= <-] & Hcp & Hn & Hl)|[[=] _]].
+      assert (Hpb : p_data pb <> []).
+      { rewrite Hd. destruct (p_data p0) as [|[k v] l] eqn:E0; [congruence|].
+        intros Hnil. pose proof (payload_in_base outs p0 e0 k v Hin) as Hi. rewrite E0 in Hi.
+        specialize (Hi (or_introl eq_refl)). rewrite Hnil in Hi. destruct Hi. }
+      exists p. split.
+      + rewrite o_shape. rewrite Ebr, Ep. rewrite client_of_router_payload by (apply Hn; exact Hpb).
+        rewrite Hcp, Hc. reflexivity.
+      + intros k Hk. rewrite (Hl k Hk), Hd. reflexivity.
+    - exfalso. apply base_resp_none in Ebr. rewrite outs_eq in Ebr.
+      assert (Hp : In p0 (payloads_of outs)).
+      { unfold payloads_of. apply in_flat_map. exists (Some p0, e0). split; [exact Hin|]. cbn. auto. }
+      rewrite Ebr in Hp. destruct Hp.
+  Qed.
+
+  Lemma base_member k v : In (k, v) base -> lookup k base = Some v /\ json_eqb v v = true.
+  Proof. apply wf_member. exact (proj1 Hwf). Qed.
+
+  (* clause: none of a failing default-mode backend's body reaches the client *)
+  Lemma clause_no_leak :
+    forallb (fun b : backend => let '(m, r, _) := b in
+               ok_status (r_code r) || match m with MDefault => no_leak_b r (raw_of o) | _ => true end) ms = true.
+  Proof.
+    apply forallb_forall. intros [[m r] d] Hb. destruct (ok_status (r_code r)) eqn:Hok; [reflexivity|].
+    destruct m; try reflexivity. cbn [orb].
+    pose proof (proj2 Hwf r d Hb Hok) as Hinf. change (map outcome (b0 :: rest)) with outs in Hinf.
+    assert (Hraw : raw_of o = "" \/ raw_of o = join_nl (texts_of outs) \/
+                   raw_of o = (join_nl (texts_of outs) ++ nl)%string).
+    { rewrite o_shape. destruct fr as [p|] eqn:Efr.
+      - destruct (p_data p) eqn:Ed.
+        + destruct (client_nopayload rt prior (Some p) be (or_intror (ex_intro _ p (conj eq_refl Ed)))) as [_ [H|(s & txt & Ebe & H)]];
+            [left; exact H|]. apply base_err_text in Ebe. rewrite outs_eq in Ebe. subst txt.
+          right. exact H.
+        + left. rewrite client_of_router_payload by (rewrite Ed; discriminate). reflexivity.
+      - destruct (client_nopayload rt prior None be (or_introl eq_refl)) as [_ [H|(s & txt & Ebe & H)]];
+          [left; exact H|]. apply base_err_text in Ebe. rewrite outs_eq in Ebe. subst txt.
+        right. exact H. }
+    destruct Hraw as [->|[->| ->]].
+    - apply no_leak_empty.
+    - apply no_leak_not_infix. destruct (is_infix (r_body r) (join_nl (texts_of outs))) eqn:E; [|reflexivity].
+      rewrite (is_infix_app _ _ nl E) in Hinf. discriminate.
+    - apply no_leak_not_infix. exact Hinf.
+  Qed.
+
+  (* clause: a failed backend flags the answer incomplete *)
+  Lemma clause_incomplete :
+    negb (existsb b_failed ms) || str_eqb (c_completed o) "false" = true.
+  Proof.
+    rewrite anyfail_flagged. fold outs. destruct (flagged outs) eqn:Hf; [|reflexivity]. cbn [negb orb].
+    rewrite o_shape. destruct fr as [p|] eqn:Efr.
+    - destruct (p_data p) eqn:Ed.
+      + destruct (client_nopayload rt prior (Some p) be (or_intror (ex_intro _ p (conj eq_refl Ed)))) as [-> _]. reflexivity.
+      + rewrite client_of_router_payload by (rewrite Ed; discriminate). cbn [c_completed].
+        destruct (final_resp_some _ _ _ _ Efr) as [(pb & Ebr & Hcp & _)|[_ Hcp]].
+        * destruct (base_resp_some _ _ _ Ebr) as [_ Hc]. rewrite outs_eq in Hc. rewrite Hcp, Hc, Hf. reflexivity.
+        * rewrite Hcp. reflexivity.
+    - destruct (client_nopayload rt prior None be (or_introl eq_refl)) as [-> _]. reflexivity.
+  Qed.
+
+  (* clause: 200/201 replies are used - their data reaches the client *)
+  Lemma clause_used :
+    forallb (fun b : backend => let '(_, r, d) := b in
+               negb (ok_status (r_code r)) ||
+               match d with
+               | Some dd =>
+                   let dd' := not_static sk dd in
+                   Nat.eqb (List.length dd') 0 ||
+                   ((c_status o =? 200)%Z &&
+                    match body_obj o with Some body => carries_b dd' body | None => false end &&
+                    (existsb b_failed ms || str_eqb (c_completed o) "true"))
+               | None => true
+               end) ms = true.
+  Proof.
+    apply forallb_forall. intros [[m r] d] Hb. destruct (ok_status (r_code r)) eqn:Hok; [|reflexivity].
+    cbn [negb orb]. destruct d as [dd|]; [|reflexivity]. cbv zeta.
+    destruct (not_static sk dd) as [|kv0 dd0] eqn:Edd; [reflexivity|]. cbn [List.length Nat.eqb orb].
+    set (p0 := {| p_data := dd; p_complete := true; p_status := 0 |}).
+    assert (Hin : In (Some p0, ENone) outs).
+    { apply in_map_iff. exists (m, r, Some dd). split; [|exact Hb]. cbn [outcome]. apply used_when_ok. exact Hok. }
+    assert (Hne : p_data p0 <> []).
+    { cbn. intros ->. discriminate. }
+    destruct (payload_delivered p0 ENone Hin Hne) as (p & Ho & Hl). rewrite Ho. cbn [c_status c_completed c_body body_obj].
+    rewrite Z.eqb_refl. cbn [andb].
+    assert (Hc : carries_b (kv0 :: dd0) (p_data p) = true).
+    { rewrite <- Edd. unfold carries_b. apply forallb_forall. intros [k v] Hkv.
+      unfold not_static in Hkv. apply filter_In in Hkv as [Hkv Hk]. cbn [fst snd] in *.
+      assert (Hnk : ~ In k sk).
+      { intros Hi. apply str_mem_In in Hi. rewrite Hi in Hk. discriminate. }
+      rewrite (Hl k Hnk).
+      destruct (base_member k v (payload_in_base outs p0 ENone k v Hin Hkv)) as [-> ->]. reflexivity. }
+    rewrite Hc. cbn [andb]. rewrite anyfail_flagged. fold outs. destruct (flagged outs); reflexivity.
+  Qed.
+
+  (* clause: return_error_details - error_<name> holds the status and the body *)
+  Lemma clause_details :
+    forallb (fun b : backend => let '(m, r, _) := b in
+               ok_status (r_code r) ||
+               match m with
+               | MDetails n =>
+                   str_mem ("error_" ++ n)%string sk ||
+                   match body_obj o with Some body => details_ok_b n r body | None => false end
+               | _ => true
+               end) ms = true.
+  Proof.
+    apply forallb_forall. intros [[m r] d] Hb. destruct (ok_status (r_code r)) eqn:Hok; [reflexivity|].
+    cbn [orb]. destruct m as [| |n]; try reflexivity.
+    destruct (str_mem ("error_" ++ n)%string sk) eqn:Hk; [reflexivity|]. cbn [orb].
+    set (eo := error_object (r_code r) (r_body r) (r_enc r)).
+    set (p0 := {| p_data := [(("error_" ++ n)%string, eo)]; p_complete := false; p_status := r_code r |}).
+    assert (Hin : In (Some p0, ENone) outs).
+    { apply in_map_iff. exists (MDetails n, r, d). split; [|exact Hb]. cbn [outcome]. apply details_mode. exact Hok. }
+    destruct (payload_delivered p0 ENone Hin) as (p & Ho & Hl); [discriminate|].
+    rewrite Ho. cbn [c_body body_obj]. apply details_ok_lookup.
+    assert (Hnk : ~ In ("error_" ++ n)%string sk).
+    { intros Hi. apply str_mem_In in Hi. rewrite Hi in Hk. discriminate. }
+    rewrite (Hl _ Hnk).
+    apply (base_member _ eo). apply (payload_in_base outs p0 ENone _ _ Hin). left. reflexivity.
+  Qed.
+End Meets.
+
+(* clause: a sole backend - 500 by default, exactly its status with return_error_code *)
+Lemma clause_sole rt prior epx m r d :
+  ok_status (r_code r) || static_on_failure (static_cfg epx) ||
+  match m with
+  | MDefault => (c_status (client_endpoint rt prior epx (m, r, d) []) =? 500)%Z
+  | MErrorCode => (c_status (client_endpoint rt prior epx (m, r, d) []) =? r_code r)%Z
+  | MDetails _ => true
+  end = true.
+Proof.
+  destruct (ok_status (r_code r)) eqn:Hok; [reflexivity|].
+  destruct (static_on_failure (static_cfg epx)) eqn:Hst; [reflexivity|]. cbn [orb].
+  destruct m as [| |n]; [| |reflexivity];
+    unfold client_endpoint, endpoint_out, single_out; rewrite other_status_fails by exact Hok;
+    cbn [err_of_single err_text]; rewrite static_stage_failure by exact Hst.
+  - destruct rt as [[]| | | | |]; reflexivity.
+  - destruct rt as [[]| | | | |]; cbn; apply Z.eqb_refl.
+Qed.
+
+Lemma clause_single rt prior epx m r d :
+  ep_wf (m, r, d) [] -> static_cfg epx = None ->
+  spec_single_b m r d (client_endpoint rt prior epx (m, r, d) [])
+                (raw_of (client_endpoint rt prior epx (m, r, d) [])) = true.
+Proof.
+  intros [Hw Hl] Hst.
+  assert (H : spec_endpoint_b rt epx (m, r, d) [] (client_endpoint rt prior epx (m, r, d) [])
+                (raw_of (client_endpoint rt prior epx (m, r, d) [])) = true).
+  { apply ep_single_meets_oracle_c; [exact Hst| |].
+    - intros dd -> Hok. cbn [map outcome] in Hw. rewrite used_when_ok in Hw by exact Hok.
+      unfold payloads_of in Hw. cbn in Hw. rewrite app_nil_r in Hw.
+      cbn. exact Hw.
+    - intros -> Hok. specialize (Hl r d (or_introl eq_refl) Hok).
+      cbn [map outcome] in Hl. rewrite (default_fails MDefault r d Hok eq_refl) in Hl. exact Hl. }
+  unfold spec_endpoint_b in H. rewrite Hst in H. apply andb_true_iff in H as [_ H]. exact H.
+Qed.
+
+Lemma ep_meets_oracle rt prior epx b0 rest :
+  ep_wf b0 rest ->
+  spec_endpoint_b rt epx b0 rest (client_endpoint rt prior epx b0 rest)
+                  (raw_of (client_endpoint rt prior epx b0 rest)) = true.
+Proof.
+  intros Hwf. unfold spec_endpoint_b. cbv zeta.
+  apply andb_true_iff; split; [apply andb_true_iff; split; [apply andb_true_iff; split; [apply andb_true_iff; split; [apply andb_true_iff; split|]|]|]|].
+  - apply clause_no_leak. exact Hwf.
+  - apply clause_incomplete.
+  - apply clause_used. exact Hwf.
+  - apply clause_details. exact Hwf.
+  - destruct rest; [|reflexivity]. destruct b0 as [[m r] d]. apply clause_sole.
+  - destruct rest; [|reflexivity]. destruct (static_cfg epx) eqn:Hst; [reflexivity|].
+    destruct b0 as [[m r] d]. apply clause_single; assumption.
+Qed.
+
+(* the hypotheses are satisfiable: a 503 next to a healthy sibling *)
+Lemma ep_wf_example :
+  ep_wf (MDefault, {| r_code := 503; r_body := "MARKER-secret-body"; r_enc := "text/plain" |}, None)
+        [(MErrorCode, {| r_code := 200; r_body := "{...}"; r_enc := "application/json" |}, Some [("ok", JStr "yes")]);
+         (MDetails "b2", {| r_code := 404; r_body := "gone"; r_enc := "" |}, None)].
+Proof.
+  split; [vm_compute; reflexivity|].
+  intros r d [E|[E|[E|[]]]] Hok; try discriminate. injection E as <- <-. vm_compute. reflexivity.
+Qed.
+
+(* ---- the remaining case kinds: proxy level, and the first version's multi-backend oracle ---- *)
+Lemma proxy_meets_oracle m r d :
+  (forall dd, d = Some dd -> ok_status (r_code r) = true -> wfj (JObj dd) = true) ->
+  proxy_spec_b m r d (http_proxy_outcome m r d) = true.
+Proof.
+  intros Hwf. unfold proxy_spec_b. destruct (ok_status (r_code r)) eqn:Hok.
+  - destruct d as [dd|]; [|reflexivity]. rewrite used_when_ok by exact Hok. cbn [fst snd p_data p_complete].
+    rewrite (obj_eqb_refl dd (Hwf dd eq_refl eq_refl)). reflexivity.
+  - rewrite other_status_fails by exact Hok. destruct m as [| |n]; cbn [fst snd].
+    + reflexivity.
+    + apply Z.eqb_refl.
+    + cbn. apply details_ok_model.
+Qed.
+
+Definition router_of (i : impl) : router := match i with Gin => RGin false | Mux => RMux end.
+
+Lemma client_multi_endpoint i b0 b1 rest :
+  client_multi i (b0 :: b1 :: rest) = client_endpoint (router_of i) [] [] b0 (b1 :: rest).
+Proof.
+  unfold client_multi, client_endpoint, endpoint_out, multi_out. cbn [static_cfg lookup static_stage flatmap_active flat_stage].
+  destruct (merge_outs _) as [resp anyerr]. destruct i; reflexivity.
+Qed.
+
+Lemma forallb_impl {A} (f g : A -> bool) l :
+  (forall x, In x l -> f x = true -> g x = true) -> forallb f l = true -> forallb g l = true.
+Proof.
+  intros H Hf. apply forallb_forall. intros x Hx. apply H; [exact Hx|].
+  rewrite forallb_forall in Hf. apply Hf. exact Hx.
+Qed.
+
+Lemma endpoint_oracle_implies_multi rt b0 rest o raw :
+  spec_endpoint_b rt [] b0 rest o raw = true -> spec_multi_b (b0 :: rest) o raw = true.
+Proof.
+  unfold spec_endpoint_b, spec_multi_b. cbn [static_cfg lookup static_keys]. cbv zeta.
+  intros H.
+  apply andb_true_iff in H as [H _]. apply andb_true_iff in H as [H _].
+  apply andb_true_iff in H as [H Hd]. apply andb_true_iff in H as [H Hu]. apply andb_true_iff in H as [Hl Hi].
+  apply andb_true_iff; split; [apply andb_true_iff; split; [apply andb_true_iff; split|]|].
+  - exact Hl.
+  - exact Hi.
+  - revert Hu. apply forallb_impl. intros [[m r] d] _ Hx.
+    destruct (ok_status (r_code r)); [|reflexivity]. cbn [negb orb] in *.
+    destruct d as [dd|]; [|reflexivity]. rewrite not_static_nil in Hx.
+    destruct (Nat.eqb (List.length dd) 0); [reflexivity|]. cbn [orb] in *.
+    apply andb_true_iff in Hx as [Hx _]. exact Hx.
+  - revert Hd. apply forallb_impl. intros [[m r] d] _ Hx.
+    destruct (ok_status (r_code r)); [reflexivity|]. cbn [orb] in *.
+    destruct m; try reflexivity. cbn [str_mem orb] in Hx. exact Hx.
+Qed.
+
+Lemma multi_meets_oracle i b0 b1 rest :
+  ep_wf b0 (b1 :: rest) ->
+  spec_multi_b (b0 :: b1 :: rest) (client_multi i (b0 :: b1 :: rest))
+               (raw_of (client_multi i (b0 :: b1 :: rest))) = true.
+Proof.
+  intros Hwf. rewrite client_multi_endpoint.
+  apply (endpoint_oracle_implies_multi (router_of i)). apply ep_meets_oracle. exact Hwf.
+Qed.
+
+(* ---- backend encodings ---- *)
+Lemma string_always_decodes m r parsed :
+  ok_status (r_code r) = true ->
+  http_proxy_outcome_enc EncString m r parsed =
+  (Some {| p_data := [("content", JStr (r_body r))]; p_complete := true; p_status := 0 |}, ENone).
+Proof. intros H. cbn. apply used_when_ok. exact H. Qed.
+
+Lemma enc_other_status_fails e m r parsed :
+  e <> EncNoop -> ok_status (r_code r) = false ->
+  http_proxy_outcome_enc e m r parsed =
+  match m with
+  | MDefault => (None, EInvalidStatus)
+  | MErrorCode => (None, ECode (r_code r) (r_body r) (r_enc r))
+  | MDetails n =>
+      (Some {| p_data := [(("error_" ++ n)%string, error_object (r_code r) (r_body r) (r_enc r))];
+               p_complete := false; p_status := r_code r |}, ENone)
+  end.
+Proof. intros He Hok. destruct e; try congruence; cbn [http_proxy_outcome_enc]; apply other_status_fails; exact Hok. Qed.
+
+Lemma noop_passes_through m r parsed :
+  http_proxy_outcome_enc EncNoop m r parsed =
+  (Some {| p_data := []; p_complete := true; p_status := r_code r |}, ENone).
+Proof. reflexivity. Qed.
+
+Lemma noop_refutes_classification :
+  exists m r parsed, ok_status (r_code r) = false /\
+    exists p, fst (http_proxy_outcome_enc EncNoop m r parsed) = Some p /\ p_complete p = true.
+Proof.
+  exists MDefault, {| r_code := 503; r_body := "down"; r_enc := "" |}, None.
+  split; [reflexivity|]. eexists. split; reflexivity.
+Qed.
+
+Lemma json_decodes_iff body parsed :
+  decode_as (EncJson false) body parsed <> None <->
+  (exists m, parsed = Some (JObj m)) \/ parsed = Some JNull.
+Proof.
+  cbn. split.
+  - destruct parsed as [[| | | | |m|]|]; intros H; try congruence; [right; reflexivity|left; eauto].
+  - intros [[m ->]| ->]; discriminate.
+Qed.
+
+Lemma collection_decodes_iff body parsed :
+  decode_as (EncJson true) body parsed <> None <->
+  (exists l, parsed = Some (JArr l)) \/ parsed = Some JNull.
+Proof.
+  cbn. split.
+  - destruct parsed as [[| | | |l| |]|]; intros H; try congruence; [right; reflexivity|left; eauto].
+  - intros [[l ->]| ->]; discriminate.
+Qed.
+
+Lemma safejson_decodes_iff body parsed :
+  decode_as EncSafeJson body parsed <> None <-> parsed <> None.
+Proof.
+  cbn. destruct parsed as [[| | | | | |]|]; split; intros H; congruence.
+Qed.
+
+Lemma enc_meets_oracle e m r parsed :
+  e <> EncNoop ->
+  (forall dd, decode_as e (r_body r) parsed = Some dd -> ok_status (r_code r) = true -> wfj (JObj dd) = true) ->
+  proxy_spec_b m r (decode_as e (r_body r) parsed) (http_proxy_outcome_enc e m r parsed) = true.
+Proof.
+  intros He Hwf.
+  replace (http_proxy_outcome_enc e m r parsed) with (http_proxy_outcome m r (decode_as e (r_body r) parsed))
+    by (destruct e; try congruence; reflexivity).
+  apply proxy_meets_oracle. exact Hwf.
 Qed.
